@@ -2,6 +2,7 @@ package mon
 
 import (
 	"encoding/binary"
+	"fmt"
 	"os"
 	"path/filepath"
 	"syscall"
@@ -29,7 +30,11 @@ func (c *Ctx) NewInflight() *Inflight {
 	if n < 64 {
 		n = 64
 	}
-	p := inflightPath(c.WorkDir, c.Phase)
+	name := c.Phase
+	if c.NShards > 1 {
+		name = fmt.Sprintf("%s.%d", c.Phase, c.Shard)
+	}
+	p := inflightPath(c.WorkDir, name)
 	f, err := os.OpenFile(p, os.O_RDWR|os.O_CREATE|os.O_TRUNC, 0o644)
 	if err != nil {
 		return &Inflight{}
